@@ -363,6 +363,12 @@ def match_sequence_type(value: Any,
                     return False
                 if isinstance(v, ElementNode) and v.type_name != XSD_UNTYPED:
                     return False
+            elif type_name == 'xs:anyType':
+                pass  # every type annotation derives from xs:anyType
+            elif type_name == 'xs:anySimpleType':
+                if isinstance(v, ElementNode) and \
+                        (v.xsd_type is None or not v.xsd_type.has_simple_content()):
+                    return False  # xs:untyped and the types without simple content
             else:
                 try:
                     if not is_instance(v.typed_value, type_name, parser):
